@@ -7,8 +7,11 @@ Regenerates `lean/Nstd/Generated/StrTables.lean` from the CURRENT sources of the
   src/String.cpp          `String::lowerCaseMap[0x101]`, `String::upperCaseMap[0x101]` (256 chars each),
                           the first-attempt buffer of `printf` (`detach(0, N)`), the slack factor of
                           `replace` (`String result(data->len + replacement.data->len * N)`)
+                          the first buffer of `fromPrintf` (`String s(N)`)
   include/nstd/String.hpp the capacity rules `usize capacity = x | MASK` of `detach` and of the copying
-                          constructors / `operator=` (separately; a missing mask is 0)
+                          constructors / `operator=` (separately; a missing mask is 0), the default
+                          arguments (`trim(chars = "…")`, `substr(start, length = N)`, `split(…, skipEmpty = b)`),
+                          the range test of `isSpace`, the literals of `fromBool`, the multiplier of `hash`
 
 The model (Nstd/Str/Model.lean) is written over these definitions, the case-map lemmas
 (`lower_map`, `upper_map` in LemmasQuery) are re-checked against what the code says now.
@@ -93,6 +96,35 @@ def generate(repo):
     slack = one(r"String\s+result\s*\(\s*data->len\s*\+\s*replacement\.data->len\s*\*\s*(\d+)\s*\)", cpp,
                 "slack factor of String::replace")
 
+    from_printf_buf = one(r"String\s+s\s*\(\s*(\d+)\s*\)\s*;", cpp, "first buffer of String::fromPrintf")
+    m = re.search(r"String&\s+trim\s*\(\s*const\s+char\s*\*\s*chars\s*=\s*\"((?:\\.|[^\"\\])*)\"\s*\)", hpp)
+    if not m:
+        raise Untranslatable("default argument of String::trim not found")
+    trim_default = c_string_bytes(m.group(1))
+    substr_default = one(r"String\s+substr\s*\(\s*ssize\s+start\s*,\s*ssize\s+length\s*=\s*(-?\d+)\s*\)", hpp,
+                         "default length of String::substr")
+    mm = re.findall(r"usize\s+split\s*\(\s*(?:List|HashSet)<String>&\s*tokens\s*,\s*const\s+char\s*\*\s*separators\s*,\s*bool\s+skipEmpty\s*=\s*(true|false)\s*\)", hpp)
+    if len(mm) != 2 or len(set(mm)) != 1:
+        raise Untranslatable(f"default skipEmpty of String::split: {mm}")
+    split_default = mm[0]
+    m = re.search(r"static\s+bool\s+isSpace\s*\(\s*char\s+c\s*\)\s*\{\s*return\s*\(\s*c\s*>=\s*(\d+)\s*&&\s*c\s*<=\s*(\d+)\s*\)\s*\|\|\s*c\s*==\s*(\d+)\s*;\s*\}", hpp)
+    if not m:
+        raise Untranslatable("String::isSpace is not `(c >= A && c <= B) || c == C`")
+    sp_lo, sp_hi, sp_x = (int(x) for x in m.groups())
+    m = re.search(r"fromBool\s*\(\s*bool\s+value\s*\)\s*\{\s*return\s+value\s*\?\s*String\(\"((?:\\.|[^\"\\])*)\"\)\s*:\s*String\(\"((?:\\.|[^\"\\])*)\"\)\s*;", hpp)
+    if not m:
+        raise Untranslatable("String::fromBool is not `value ? String(\"…\") : String(\"…\")`")
+    true_lit, false_lit = c_string_bytes(m.group(1)), c_string_bytes(m.group(2))
+    hm = re.search(r"inline\s+usize\s+hash\s*\(\s*const\s+String&.*?\n\}", hpp, re.S)
+    if not hm:
+        raise Untranslatable("hash(const String&) not found")
+    hash_mul = one(r"hashCode\s*\*=\s*(\d+)\s*;", hm.group(0), "multiplier of hash(const String&)")
+    if len(re.findall(r"hashCode\s*\*=", hm.group(0))) != 3:
+        raise Untranslatable("hash(const String&): expected three multiplications")
+
+    def nl(t):
+        return "[" + ", ".join(str(x) for x in t) + "]"
+
     def lst(t):
         rows = [", ".join(str(x) for x in t[i:i + 16]) for i in range(0, 256, 16)]
         return "[\n    " + ",\n    ".join(rows) + "]"
@@ -111,6 +143,23 @@ def generate(repo):
             f"def printfBuf : Nat := {printf_buf}\n\n"
             "/-- `String result(data->len + replacement.data->len * replaceSlack)` -/\n"
             f"def replaceSlack : Nat := {slack}\n\n"
+            "/-- `String s(fromPrintfBuf)`: the first buffer of `fromPrintf` (exact capacity, no mask) -/\n"
+            f"def fromPrintfBuf : Nat := {from_printf_buf}\n\n"
+            "/-- default argument of `trim(const char* chars = …)` -/\n"
+            f"def trimDefault : List Nat := {nl(trim_default)}\n\n"
+            "/-- default argument of `substr(ssize start, ssize length = …)` -/\n"
+            f"def substrDefaultLen : Int := {substr_default}\n\n"
+            "/-- default argument `skipEmpty` of both `split` overloads -/\n"
+            f"def splitDefaultSkip : Bool := {split_default}\n\n"
+            "/-- `isSpace(c)`: `(c >= isSpaceLo && c <= isSpaceHi) || c == isSpaceX` -/\n"
+            f"def isSpaceLo : Nat := {sp_lo}\n"
+            f"def isSpaceHi : Nat := {sp_hi}\n"
+            f"def isSpaceX : Nat := {sp_x}\n\n"
+            "/-- the literals of `fromBool` -/\n"
+            f"def trueLit : List Nat := {nl(true_lit)}\n"
+            f"def falseLit : List Nat := {nl(false_lit)}\n\n"
+            "/-- `hashCode *= hashMul` (three times) in `hash(const String&)` -/\n"
+            f"def hashMul : Nat := {hash_mul}\n\n"
             "end Nstd.Str.Generated\n")
 
 
